@@ -34,22 +34,30 @@ func init() {
 		Policy = LIFO
 		Poison = false
 		Stats.Gets, Stats.Reuses, Stats.Puts, Stats.DoublePut = 0, 0, 0, 0
+		clear(GetsByType)
 	})
 }
+
+// GetsByType counts how many objects of each pooled type were handed out in the current run.
+var GetsByType = map[string]int64{}
 
 // Pool is a deterministic free list.
 type Pool[T any] struct {
 	newf  func() T
 	free  []T
 	isPtr bool
+	name  string
 }
 
 // New returns a registered pool.
 func New[T any](newf func() T) *Pool[T] {
 	p := &Pool[T]{newf: newf}
 	var zero T
-	if t := reflect.TypeOf(zero); t != nil && t.Kind() == reflect.Pointer {
-		p.isPtr = true
+	if t := reflect.TypeOf(zero); t != nil {
+		p.name = t.String()
+		if t.Kind() == reflect.Pointer {
+			p.isPtr = true
+		}
 	}
 	simrt.OnReset(func() {
 		clear(p.free)
@@ -60,6 +68,9 @@ func New[T any](newf func() T) *Pool[T] {
 
 func (p *Pool[T]) take() (v T, ok bool) {
 	Stats.Gets++
+	if p.name != "" && simrt.Active() {
+		GetsByType[p.name]++
+	}
 	n := len(p.free)
 	if n == 0 || !simrt.Active() {
 		return v, false
